@@ -55,6 +55,8 @@ func main() {
 	switch os.Args[1] {
 	case "check":
 		os.Exit(cmdCheck(os.Args[2:]))
+	case "replay":
+		os.Exit(cmdReplay(os.Args[2:]))
 	case "dump":
 		// govc dump <pkgpattern> <func-substring>
 		eng, err := LoadEngine("/repo", "/verif", []string{os.Args[2]})
